@@ -16,8 +16,14 @@ TcDefectNames == {"tc-special-set", "tc-dialog-no-close-p", "tc-endbr-keeps-fram
                   "tc-command-void-in-head", "tc-chars-token-granularity", "tc-textarea-stays-in-body",
                   "tc-cell-caption-ws-base", "tc-intable-other-drops-reprocess", "tc-frameset-pop-name-only",
                   "tc-adoption-inner-loop-3", "tc-anyotherend-ignores-namespace", "tc-isindex-expansion",
-                  "tc-no-rb-rtc", "tc-table-pre-lf-kept", "tc-fragment-table-in-table-dropped", "tc-fragment-tokenizer-state"}
+                  "tc-no-rb-rtc", "tc-table-pre-lf-kept", "tc-fragment-table-in-table-dropped", "tc-fragment-tokenizer-state",
+                  "tc-popuntil-ignores-namespace", "tc-foreign-endtag-p-br", "tc-svg-no-fedropshadow", "tc-no-template",
+                  "tc-reset-cell-context"}
 Std(d) == d \notin KnownDefects
+\* html5lib has no template support at all: <template> is an ordinary (special) element.  TPL selects the standard's rules:
+\* template contents (a node of kind "content", first child of the template element), the "in template" insertion mode,
+\* the stack of template insertion modes (ps.tmodes), template as scope boundary / table-context boundary.
+TPL == Std("tc-no-template")
 
 \* ---------------------------------------------------------------------------------------------
 \* element categories (as html5lib has them; the standard's where a named deviation says so)
@@ -47,11 +53,11 @@ TableInsertMode == {N_table, N_tbody, N_tfoot, N_thead, N_tr}
 ScopeBase == {<<"html", N_applet>>, <<"html", N_caption>>, <<"html", N_html>>, <<"html", N_marquee>>, <<"html", N_object>>,
               <<"html", N_table>>, <<"html", N_td>>, <<"html", N_th>>, <<"math", N_annotation_xml>>, <<"math", N_mi>>,
               <<"math", N_mn>>, <<"math", N_mo>>, <<"math", N_ms>>, <<"math", N_mtext>>, <<"svg", N_desc>>,
-              <<"svg", N_foreignObject>>, <<"svg", N_title>>}
+              <<"svg", N_foreignObject>>, <<"svg", N_title>>} \cup (IF TPL THEN {<<"html", N_template>>} ELSE {})
 ScopeSet(v) == CASE v = "default" -> ScopeBase
                  [] v = "button" -> ScopeBase \cup {<<"html", N_button>>}
                  [] v = "list"   -> ScopeBase \cup {<<"html", N_ol>>, <<"html", N_ul>>}
-                 [] v = "table"  -> {<<"html", N_html>>, <<"html", N_table>>}
+                 [] v = "table"  -> {<<"html", N_html>>, <<"html", N_table>>} \cup (IF TPL THEN {<<"html", N_template>>} ELSE {})
                  [] v = "select" -> {<<"html", N_optgroup>>, <<"html", N_option>>}
 
 \* ---------------------------------------------------------------------------------------------
@@ -63,6 +69,13 @@ CurName(ps) == CurNd(ps).n
 Pop(ps)     == [ps EXCEPT !.open = Front(@)]
 InOpen(ps, id) == \E i \in 1..Len(ps.open) : ps.open[i] = id
 InAfe(ps, id)  == \E i \in 1..Len(ps.afe) : ps.afe[i] = id
+IsTemplateNd(nd) == nd.k = "elem" /\ nd.ns = "html" /\ nd.n = N_template
+RECURSIVE LastTemplateIdx(_, _)
+LastTemplateIdx(ps, i) == IF i = 0 THEN 0 ELSE IF IsTemplateNd(ps.nodes[ps.open[i]]) THEN i ELSE LastTemplateIdx(ps, i - 1)
+TemplateOpen(ps) == TPL /\ LastTemplateIdx(ps, Len(ps.open)) # 0
+\* "if the adjusted insertion location is inside a template element, let it instead be inside its template contents"
+Into(nodes, id) == IF IsTemplateNd(nodes[id]) /\ nodes[id].kids # <<>> /\ nodes[nodes[id].kids[1]].k = "content"
+                   THEN nodes[id].kids[1] ELSE id
 
 \* html5lib elementInScope: target given by name means the HTML element of that name
 RECURSIVE ScopeWalk(_, _, _, _, _)
@@ -81,19 +94,25 @@ NodeInScope(ps, node, v) ==
 RECURSIVE GenImplied(_, _)
 GenImplied(ps, exclude) ==
     IF CurName(ps) \in ImpliedEnd /\ CurName(ps) # exclude THEN GenImplied(Pop(ps), exclude) ELSE ps
-\* pop until an element with one of the names has been popped (name comparison only, as the code does)
+\* pop until an element with one of the names has been popped; html5lib compares the name only, the standard says "until an
+\* HTML element with the same tag name has been popped" (a foreign element of that name can sit above it on the stack)
 RECURSIVE PopUntilNamed(_, _)
 PopUntilNamed(ps, names) ==
     IF ps.open = <<>> THEN ps
-    ELSE IF CurName(ps) \in names THEN Pop(ps) ELSE PopUntilNamed(Pop(ps), names)
+    ELSE IF CurName(ps) \in names /\ (Std("tc-popuntil-ignores-namespace") => CurNd(ps).ns = "html")
+         THEN Pop(ps) ELSE PopUntilNamed(Pop(ps), names)
 RECURSIVE PopUntilNode(_, _)
 PopUntilNode(ps, node) ==
     IF ps.open = <<>> THEN ps ELSE IF Cur(ps) = node THEN Pop(ps) ELSE PopUntilNode(Pop(ps), node)
 RECURSIVE PopWhileNotHtmlNamed(_, _)
 PopWhileNotHtmlNamed(ps, names) ==      \* namespace-aware variant (clear the stack back to a table body context)
-    IF CurName(ps) \in names /\ CurNd(ps).ns = "html" THEN ps ELSE PopWhileNotHtmlNamed(Pop(ps), names)
+    IF (CurName(ps) \in names /\ CurNd(ps).ns = "html") \/ (TPL /\ IsTemplateNd(CurNd(ps))) THEN ps
+    ELSE PopWhileNotHtmlNamed(Pop(ps), names)
 RECURSIVE PopWhileNotNamed(_, _)
-PopWhileNotNamed(ps, names) == IF CurName(ps) \in names THEN ps ELSE PopWhileNotNamed(Pop(ps), names)
+PopWhileNotNamed(ps, names) == IF CurName(ps) \in names \/ (TPL /\ IsTemplateNd(CurNd(ps))) THEN ps
+                               ELSE PopWhileNotNamed(Pop(ps), names)
+RECURSIVE PopUntilTemplate(_)
+PopUntilTemplate(ps) == IF ps.open = <<>> THEN ps ELSE IF IsTemplateNd(CurNd(ps)) THEN Pop(ps) ELSE PopUntilTemplate(Pop(ps))
 
 \* ---------------------------------------------------------------------------------------------
 \* insertion
@@ -101,10 +120,12 @@ PopWhileNotNamed(ps, names) == IF CurName(ps) \in names THEN ps ELSE PopWhileNot
 RECURSIVE LastNamedIdx(_, _, _)
 LastNamedIdx(ps, name, i) == IF i = 0 THEN 0 ELSE IF ps.nodes[ps.open[i]].n = name THEN i ELSE LastNamedIdx(ps, name, i - 1)
 FosterPos(ps) ==
-    LET ti == LastNamedIdx(ps, N_table, Len(ps.open)) IN
-    IF ti = 0 THEN <<ps.open[1], 0>>
-    ELSE LET t == ps.open[ti] IN
-         IF ps.nodes[t].par # 0 THEN <<ps.nodes[t].par, t>> ELSE <<ps.open[ti - 1], 0>>
+    LET ti == LastNamedIdx(ps, N_table, Len(ps.open))
+        pi == IF TPL THEN LastTemplateIdx(ps, Len(ps.open)) ELSE 0
+    IN IF pi # 0 /\ (ti = 0 \/ pi > ti) THEN <<Into(ps.nodes, ps.open[pi]), 0>>
+       ELSE IF ti = 0 THEN <<ps.open[1], 0>>
+       ELSE LET t == ps.open[ti] IN
+            IF ps.nodes[t].par # 0 THEN <<ps.nodes[t].par, t>> ELSE <<Into(ps.nodes, ps.open[ti - 1]), 0>>
 UseFoster(ps) == ps.foster /\ CurName(ps) \in TableInsertMode
 
 \* attributes of a token: <<name, value>> pairs -> node attributes <<ans, local, value>>
@@ -115,7 +136,9 @@ PlainAttrs(as) == MapSeq(PlainAttr, as)
 RECURSIVE Lookup2(_, _, _)
 Lookup2(tbl, key, i) == IF i > Len(tbl) THEN 0 ELSE IF tbl[i][1] = key THEN i ELSE Lookup2(tbl, key, i + 1)
 AdjSvgAttrName(n) == LET i == Lookup2(SvgAttrTable, n, 1) IN IF i = 0 THEN n ELSE SvgAttrTable[i][2]
-AdjSvgTagName(n)  == LET i == Lookup2(SvgTagTable, n, 1) IN IF i = 0 THEN n ELSE SvgTagTable[i][2]
+\* feDropShadow joined the standard's table in 2017; html5lib's copy is older
+AdjSvgTagName(n)  == LET i == Lookup2(SvgTagTable, n, 1) IN
+                     IF i # 0 THEN SvgTagTable[i][2] ELSE IF Std("tc-svg-no-fedropshadow") /\ n = SvgLateTag[1] THEN SvgLateTag[2] ELSE n
 AdjMathAttrName(n) == IF n = N_definitionurl THEN N_definitionURL ELSE n
 ForeignAttr(pr, ns) ==
     LET nm == IF ns = "svg" THEN AdjSvgAttrName(pr[1]) ELSE IF ns = "math" THEN AdjMathAttrName(pr[1]) ELSE pr[1]
@@ -134,15 +157,15 @@ InsertElemNs(ps, ns, n, a) ==
     IF UseFoster(ps)
     THEN LET fp == FosterPos(ps) IN
          [p1 EXCEPT !.nodes = InsertBefore(@, fp[1], id, fp[2]), !.open = Append(@, id)]
-    ELSE [p1 EXCEPT !.nodes = AppendChild(@, Cur(ps), id), !.open = Append(@, id)]
+    ELSE [p1 EXCEPT !.nodes = AppendChild(@, Into(ps.nodes, Cur(ps)), id), !.open = Append(@, id)]
 InsertHtml(ps, tok) == InsertElemNs(ps, "html", tok.n, PlainAttrs(tok.a))
 InsertImplied(ps, name) == InsertElemNs(ps, "html", name, <<>>)
 InsertTextCur(ps, s) ==
     IF UseFoster(ps) THEN LET fp == FosterPos(ps) IN [ps EXCEPT !.nodes = InsertText(@, fp[1], fp[2], s)]
-    ELSE [ps EXCEPT !.nodes = InsertText(@, Cur(ps), 0, s)]
+    ELSE [ps EXCEPT !.nodes = InsertText(@, Into(ps.nodes, Cur(ps)), 0, s)]
 InsertComment(ps, parent, data) ==
     LET id == Len(ps.nodes) + 1 IN
-    [ps EXCEPT !.nodes = AppendChild(Append(@, MkNode("comment", "", <<>>, <<>>, data)), parent, id)]
+    [ps EXCEPT !.nodes = AppendChild(Append(@, MkNode("comment", "", <<>>, <<>>, data)), Into(ps.nodes, parent), id)]
 
 \* ---------------------------------------------------------------------------------------------
 \* active formatting elements
@@ -188,7 +211,9 @@ ResetWalk(ps, i) ==
         nm   == IF last THEN ps.inner ELSE node.n
     IN IF ~last /\ node.ns # "html" THEN ResetWalk(ps, i - 1)
        ELSE CASE nm = N_select -> "inSelect"
-              [] nm \in {N_td, N_th} -> "inCell"
+              \* the standard: "td or th and last is false"; html5lib ignores `last` (fragment with a td/th context starts in
+              \* the in-cell mode, so a <select> there gets the in-select-in-table mode)
+              [] nm \in {N_td, N_th} -> IF last /\ Std("tc-reset-cell-context") THEN "inBody" ELSE "inCell"
               [] nm = N_tr -> "inRow"
               [] nm \in {N_tbody, N_thead, N_tfoot} -> "inTableBody"
               [] nm = N_caption -> "inCaption"
@@ -198,7 +223,34 @@ ResetWalk(ps, i) ==
               [] nm = N_frameset -> "inFrameset"
               [] nm = N_html -> "beforeHead"
               [] OTHER -> IF last THEN "inBody" ELSE ResetWalk(ps, i - 1)
-ResetMode(ps) == [ps EXCEPT !.mode = ResetWalk(ps, Len(ps.open))]
+\* the standard's version (used with the template rules; without templates both give the same modes wherever the
+\* algorithm is invoked)
+RECURSIVE SelectAncestor(_, _)
+SelectAncestor(ps, j) ==
+    IF j = 1 THEN "inSelect"
+    ELSE LET a == ps.nodes[ps.open[j - 1]] IN
+         IF IsTemplateNd(a) THEN "inSelect" ELSE IF a.ns = "html" /\ a.n = N_table THEN "inSelectInTable" ELSE SelectAncestor(ps, j - 1)
+RECURSIVE ResetWalkStd(_, _)
+ResetWalkStd(ps, i) ==
+    LET last == i = 1
+        ctx  == last /\ ps.inner # None
+        node == ps.nodes[ps.open[i]]
+        nm   == IF ctx THEN ps.inner ELSE node.n
+    IN IF ~ctx /\ node.ns # "html" THEN (IF last THEN "inBody" ELSE ResetWalkStd(ps, i - 1))
+       ELSE IF nm = N_select THEN (IF last THEN "inSelect" ELSE SelectAncestor(ps, i))
+       ELSE IF nm \in {N_td, N_th} /\ (~last \/ ~Std("tc-reset-cell-context")) THEN "inCell"
+       ELSE IF nm = N_tr THEN "inRow"
+       ELSE IF nm \in {N_tbody, N_thead, N_tfoot} THEN "inTableBody"
+       ELSE IF nm = N_caption THEN "inCaption"
+       ELSE IF nm = N_colgroup THEN "inColumnGroup"
+       ELSE IF nm = N_table THEN "inTable"
+       ELSE IF nm = N_template /\ ps.tmodes # <<>> THEN Last(ps.tmodes)
+       ELSE IF nm = N_head /\ ~last THEN "inHead"
+       ELSE IF nm = N_body THEN "inBody"
+       ELSE IF nm = N_frameset THEN "inFrameset"
+       ELSE IF nm = N_html THEN (IF ps.head = 0 THEN "beforeHead" ELSE "afterHead")
+       ELSE IF last THEN "inBody" ELSE ResetWalkStd(ps, i - 1)
+ResetMode(ps) == [ps EXCEPT !.mode = IF TPL THEN ResetWalkStd(ps, Len(ps.open)) ELSE ResetWalk(ps, Len(ps.open))]
 
 RcdataRawtext(ps, tok, kind) ==
     [InsertHtml(ps, tok) EXCEPT !.tokReq = kind, !.orig = ps.mode, !.mode = "text"]
@@ -208,7 +260,7 @@ RcdataRawtext(ps, tok, kind) ==
 PInit(scripting, inner) ==
     LET base == [nodes |-> <<DocNode>>, open |-> <<>>, afe |-> <<>>, mode |-> "initial", orig |-> "", head |-> 0, form |-> 0,
                  fok |-> TRUE, scripting |-> scripting, quirks |-> "no", ptt |-> <<>>, pttOrig |-> "", foster |-> FALSE,
-                 dropLF |-> FALSE, inner |-> inner, tokReq |-> "", re |-> FALSE, first |-> FALSE]
+                 dropLF |-> FALSE, inner |-> inner, tokReq |-> "", re |-> FALSE, first |-> FALSE, tmodes |-> <<>>]
     IN IF inner = None THEN base
        ELSE LET p1 == [base EXCEPT !.nodes = AppendChild(Append(@, MkNode("elem", "html", N_html, <<>>, <<>>)), 1, 2),
                                    !.open = <<2>>, !.mode = "beforeHead"]
@@ -286,6 +338,25 @@ IsindexPrompt == <<84,104,105,115,32,105,115,32,97,32,115,101,97,114,99,104,97,9
 IsHiddenInput(tok) == LET v == AttrVal(tok.a, N_type) IN v # None /\ Lower(v) = N_hidden
 InTableModes == {"inTable", "inCaption", "inColumnGroup", "inTableBody", "inRow", "inCell"}
 
+\* ---- template (standard only) ----
+TemplateStart(ps, tok) ==
+    LET p1 == InsertHtml(ps, tok)
+        t  == Cur(p1)
+        c  == Len(p1.nodes) + 1
+    IN [p1 EXCEPT !.nodes = AppendChild(Append(@, MkNode("content", "", <<>>, <<>>, <<>>)), t, c),
+                  !.afe = Append(@, 0), !.fok = FALSE, !.mode = "inTemplate", !.tmodes = Append(@, "inTemplate")]
+TemplateEnd(ps) ==
+    IF ~TemplateOpen(ps) THEN NoRe(ps)
+    ELSE LET p1 == PopUntilTemplate(ps)          \* (generate all implied end tags thoroughly: only pops)
+         IN NoRe(ResetMode([p1 EXCEPT !.afe = ClearAfeToMarker(@), !.tmodes = Front(@)]))
+TemplateEof(ps) ==
+    IF ~TemplateOpen(ps) THEN NoRe(ps)
+    ELSE LET p1 == PopUntilTemplate(ps)
+         IN Rep(ResetMode([p1 EXCEPT !.afe = ClearAfeToMarker(@), !.tmodes = Front(@)]))
+InHeadListStd == {N_base, N_basefont, N_bgsound, N_link, N_meta, N_noframes, N_script, N_style, N_template, N_title}
+\* in column group, "anything else": ignored when the current node is not a colgroup element
+ColgroupIgnore(ps) == IF TPL THEN ~(CurNd(ps).ns = "html" /\ CurName(ps) = N_colgroup) ELSE CurName(ps) = N_html
+
 \* ---- start tags ----
 StartTag(ps, mode, tok) ==
   LET nm == tok.n IN
@@ -305,6 +376,7 @@ StartTag(ps, mode, tok) ==
         ELSE IF nm = N_script THEN NoRe([InsertHtml(ps, tok) EXCEPT !.tokReq = "script", !.orig = ps.mode, !.mode = "text"])
         ELSE IF nm \in HeadVoid \/ nm = N_meta THEN NoRe(VoidInsert(ps, tok))
         ELSE IF nm = N_head THEN NoRe(ps)
+        ELSE IF TPL /\ nm = N_template THEN NoRe(TemplateStart(ps, tok))
         ELSE Rep(InHeadAnythingElse(ps))
     [] mode = "inHeadNoscript" ->
         IF nm = N_html THEN StartTag(ps, "inBody", tok)
@@ -315,17 +387,18 @@ StartTag(ps, mode, tok) ==
         IF nm = N_html THEN StartTag(ps, "inBody", tok)
         ELSE IF nm = N_body THEN NoRe([InsertHtml([ps EXCEPT !.fok = FALSE], tok) EXCEPT !.mode = "inBody"])
         ELSE IF nm = N_frameset THEN NoRe([InsertHtml(ps, tok) EXCEPT !.mode = "inFrameset"])
-        ELSE IF nm \in {N_base, N_basefont, N_bgsound, N_link, N_meta, N_noframes, N_script, N_style, N_title} THEN
+        ELSE IF nm \in {N_base, N_basefont, N_bgsound, N_link, N_meta, N_noframes, N_script, N_style, N_title}
+                \/ (TPL /\ nm = N_template) THEN
             LET p1 == StartTag([ps EXCEPT !.open = Append(@, ps.head)], "inHead", tok)
                 hi == LastNamedIdx(p1, N_head, Len(p1.open))
             IN NoRe(IF hi = 0 THEN p1 ELSE [p1 EXCEPT !.open = RemoveAt(@, hi)])
         ELSE IF nm = N_head THEN NoRe(ps)
         ELSE Rep(AfterHeadAnythingElse(ps))
     [] mode = "inBody" ->
-        IF nm = N_html THEN StartTagHtmlGeneric(ps, tok)
-        ELSE IF nm \in InBodyInHeadNames THEN StartTag(ps, "inHead", tok)
+        IF nm = N_html THEN (IF TemplateOpen(ps) THEN NoRe(ps) ELSE StartTagHtmlGeneric(ps, tok))
+        ELSE IF nm \in InBodyInHeadNames \/ (TPL /\ nm = N_template) THEN StartTag(ps, "inHead", tok)
         ELSE IF nm = N_body THEN
-            (IF Len(ps.open) = 1 \/ ps.nodes[ps.open[2]].n # N_body THEN NoRe(ps)
+            (IF Len(ps.open) = 1 \/ ps.nodes[ps.open[2]].n # N_body \/ TemplateOpen(ps) THEN NoRe(ps)
              ELSE NoRe([ps EXCEPT !.fok = FALSE, !.nodes[ps.open[2]].a = MergeAttrs(@, tok.a)]))
         ELSE IF nm = N_frameset THEN
             (IF Len(ps.open) = 1 \/ ps.nodes[ps.open[2]].n # N_body \/ ~ps.fok THEN NoRe(ps)
@@ -339,8 +412,8 @@ StartTag(ps, mode, tok) ==
             LET p1 == CloseP(ps)  p2 == IF CurName(p1) \in Heading THEN Pop(p1) ELSE p1 IN NoRe(InsertHtml(p2, tok))
         ELSE IF nm \in {N_pre, N_listing} THEN NoRe([InsertHtml(CloseP(ps), tok) EXCEPT !.fok = FALSE, !.dropLF = TRUE])
         ELSE IF nm = N_form THEN
-            (IF ps.form # 0 THEN NoRe(ps)
-             ELSE LET p1 == InsertHtml(CloseP(ps), tok) IN NoRe([p1 EXCEPT !.form = Cur(p1)]))
+            (IF ps.form # 0 /\ ~TemplateOpen(ps) THEN NoRe(ps)
+             ELSE LET p1 == InsertHtml(CloseP(ps), tok) IN NoRe(IF TemplateOpen(ps) THEN p1 ELSE [p1 EXCEPT !.form = Cur(p1)]))
         ELSE IF nm \in {N_li, N_dd, N_dt} THEN
             LET stop == IF nm = N_li THEN {N_li} ELSE {N_dt, N_dd}
                 p0 == [ps EXCEPT !.fok = FALSE]
@@ -442,10 +515,10 @@ StartTag(ps, mode, tok) ==
             LET p1 == NoRe(EndTag(ps, ps.mode, ImpliedEndTok(N_table))) IN
             IF Std("tc-fragment-table-in-table-dropped") THEN (IF NameInScope(ps, N_table, "table") THEN Rep(p1) ELSE p1)
             ELSE IF ps.inner = None THEN Rep(p1) ELSE p1
-        ELSE IF nm \in {N_style, N_script} THEN StartTag(ps, "inHead", tok)
+        ELSE IF nm \in {N_style, N_script} \/ (TPL /\ nm = N_template) THEN StartTag(ps, "inHead", tok)
         ELSE IF nm = N_input /\ IsHiddenInput(tok) THEN NoRe(VoidInsert(ps, tok))
         ELSE IF nm = N_form THEN
-            (IF ps.form # 0 THEN NoRe(ps) ELSE LET p1 == InsertHtml(ps, tok) IN NoRe(Pop([p1 EXCEPT !.form = Cur(p1)])))
+            (IF ps.form # 0 \/ TemplateOpen(ps) THEN NoRe(ps) ELSE LET p1 == InsertHtml(ps, tok) IN NoRe(Pop([p1 EXCEPT !.form = Cur(p1)])))
         ELSE \* html5lib's InTablePhase.startTagOther discards the in-body handler's "reprocess" result (named deviation)
              LET p1 == StartTag([ps EXCEPT !.foster = TRUE], "inBody", tok) IN
              [p1 EXCEPT !.foster = FALSE, !.re = IF Std("tc-intable-other-drops-reprocess") THEN @ ELSE FALSE]
@@ -460,7 +533,8 @@ StartTag(ps, mode, tok) ==
     [] mode = "inColumnGroup" ->
         IF nm = N_html THEN StartTagHtmlGeneric(ps, tok)
         ELSE IF nm = N_col THEN NoRe(VoidInsert(ps, tok))
-        ELSE IF CurName(ps) = N_html THEN NoRe(ps) ELSE Rep([Pop(ps) EXCEPT !.mode = "inTable"])
+        ELSE IF TPL /\ nm = N_template THEN StartTag(ps, "inHead", tok)
+        ELSE IF ColgroupIgnore(ps) THEN NoRe(ps) ELSE Rep([Pop(ps) EXCEPT !.mode = "inTable"])
     [] mode = "inTableBody" ->
         IF nm = N_html THEN StartTagHtmlGeneric(ps, tok)
         ELSE IF nm = N_tr THEN NoRe([InsertHtml(PopWhileNotHtmlNamed(ps, {N_tbody, N_tfoot, N_thead, N_html}), tok) EXCEPT !.mode = "inRow"])
@@ -496,8 +570,14 @@ StartTag(ps, mode, tok) ==
         ELSE IF nm = N_select THEN NoRe(EndTag(ps, "inSelect", ImpliedEndTok(N_select)))
         ELSE IF nm \in {N_input, N_keygen, N_textarea} THEN
             (IF NameInScope(ps, N_select, "select") THEN Rep(NoRe(EndTag(ps, "inSelect", ImpliedEndTok(N_select)))) ELSE NoRe(ps))
-        ELSE IF nm = N_script THEN StartTag(ps, "inHead", tok)
+        ELSE IF nm = N_script \/ (TPL /\ nm = N_template) THEN StartTag(ps, "inHead", tok)
         ELSE NoRe(ps)
+    [] mode = "inTemplate" ->
+        IF nm \in InHeadListStd THEN StartTag(ps, "inHead", tok)
+        ELSE LET m == IF nm \in {N_caption, N_colgroup, N_tbody, N_tfoot, N_thead} THEN "inTable"
+                      ELSE IF nm = N_col THEN "inColumnGroup" ELSE IF nm = N_tr THEN "inTableBody"
+                      ELSE IF nm \in {N_td, N_th} THEN "inRow" ELSE "inBody"
+             IN Rep([ps EXCEPT !.tmodes = Append(Front(@), m), !.mode = m])
     [] mode = "inSelectInTable" ->
         IF nm \in {N_caption, N_table, N_tbody, N_tfoot, N_thead, N_tr, N_td, N_th}
         THEN Rep(NoRe(EndTag(ps, "inSelect", ImpliedEndTok(N_select))))
@@ -549,17 +629,22 @@ EndTag(ps, mode, tok) ==
         IF nm \in {N_head, N_body, N_html, N_br} THEN Rep(StartTagHead(ps, ImpliedStart(N_head))) ELSE NoRe(ps)
     [] mode = "inHead" ->
         IF nm = N_head THEN NoRe(InHeadAnythingElse(ps))
+        ELSE IF TPL /\ nm = N_template THEN TemplateEnd(ps)
         ELSE IF nm \in {N_br, N_html, N_body} THEN Rep(InHeadAnythingElse(ps)) ELSE NoRe(ps)
     [] mode = "inHeadNoscript" ->
         IF nm = N_noscript THEN NoRe([Pop(ps) EXCEPT !.mode = "inHead"])
         ELSE IF nm = N_br THEN Rep([Pop(ps) EXCEPT !.mode = "inHead"]) ELSE NoRe(ps)
-    [] mode = "afterHead" -> IF nm \in {N_body, N_html, N_br} THEN Rep(AfterHeadAnythingElse(ps)) ELSE NoRe(ps)
+    [] mode = "afterHead" -> IF nm \in {N_body, N_html, N_br} THEN Rep(AfterHeadAnythingElse(ps))
+                             ELSE IF TPL /\ nm = N_template THEN TemplateEnd(ps) ELSE NoRe(ps)
     [] mode = "inBody" ->
         IF nm = N_body THEN (IF NameInScope(ps, N_body, "default") THEN NoRe([ps EXCEPT !.mode = "afterBody"]) ELSE NoRe(ps))
         ELSE IF nm = N_html THEN (IF NameInScope(ps, N_body, "default") THEN Rep([ps EXCEPT !.mode = "afterBody"]) ELSE NoRe(ps))
         ELSE IF nm \in EndBlockNames THEN
             LET p0 == IF nm = N_pre THEN [ps EXCEPT !.dropLF = FALSE] ELSE ps IN
             IF NameInScope(p0, nm, "default") THEN NoRe(PopUntilNamed(GenImplied(p0, None), {nm})) ELSE NoRe(p0)
+        ELSE IF TPL /\ nm = N_template THEN TemplateEnd(ps)
+        ELSE IF nm = N_form /\ TemplateOpen(ps) THEN
+            (IF NameInScope(ps, N_form, "default") THEN NoRe(PopUntilNamed(GenImplied(ps, None), {N_form})) ELSE NoRe(ps))
         ELSE IF nm = N_form THEN
             LET node == ps.form  p0 == [ps EXCEPT !.form = 0] IN
             IF node = 0 \/ ~NodeInScope(p0, node, "default") THEN NoRe(p0)
@@ -590,6 +675,7 @@ EndTag(ps, mode, tok) ==
             (IF NameInScope(ps, N_table, "table")
              THEN NoRe(ResetMode(Pop(PopWhileNotNamed(GenImplied(ps, None), {N_table})))) ELSE NoRe(ps))
         ELSE IF nm \in {N_body, N_caption, N_col, N_colgroup, N_html, N_tbody, N_td, N_tfoot, N_th, N_thead, N_tr} THEN NoRe(ps)
+        ELSE IF TPL /\ nm = N_template THEN TemplateEnd(ps)
         ELSE LET p1 == EndTag([ps EXCEPT !.foster = TRUE], "inBody", tok) IN
              [p1 EXCEPT !.foster = FALSE, !.re = IF Std("tc-intable-other-drops-reprocess") THEN @ ELSE FALSE]
     [] mode = "inTableText" -> Rep(FlushTableText(ps))
@@ -606,9 +692,10 @@ EndTag(ps, mode, tok) ==
         ELSE IF nm \in {N_body, N_col, N_colgroup, N_html, N_tbody, N_td, N_tfoot, N_th, N_thead, N_tr} THEN NoRe(ps)
         ELSE EndTag(ps, "inBody", tok)
     [] mode = "inColumnGroup" ->
-        IF nm = N_colgroup THEN (IF CurName(ps) = N_html THEN NoRe(ps) ELSE NoRe([Pop(ps) EXCEPT !.mode = "inTable"]))
+        IF nm = N_colgroup THEN (IF ColgroupIgnore(ps) THEN NoRe(ps) ELSE NoRe([Pop(ps) EXCEPT !.mode = "inTable"]))
         ELSE IF nm = N_col THEN NoRe(ps)
-        ELSE IF CurName(ps) = N_html THEN NoRe(ps) ELSE Rep([Pop(ps) EXCEPT !.mode = "inTable"])
+        ELSE IF TPL /\ nm = N_template THEN TemplateEnd(ps)
+        ELSE IF ColgroupIgnore(ps) THEN NoRe(ps) ELSE Rep([Pop(ps) EXCEPT !.mode = "inTable"])
     [] mode = "inTableBody" ->
         IF nm \in {N_tbody, N_tfoot, N_thead} THEN
             (IF NameInScope(ps, nm, "table")
@@ -648,7 +735,9 @@ EndTag(ps, mode, tok) ==
             IN NoRe(IF CurName(p1) = N_optgroup THEN Pop(p1) ELSE p1)
         ELSE IF nm = N_select THEN
             (IF NameInScope(ps, N_select, "select") THEN NoRe(ResetMode(PopUntilNamed(ps, {N_select}))) ELSE NoRe(ps))
+        ELSE IF TPL /\ nm = N_template THEN TemplateEnd(ps)
         ELSE NoRe(ps)
+    [] mode = "inTemplate" -> IF nm = N_template THEN TemplateEnd(ps) ELSE NoRe(ps)
     [] mode = "inSelectInTable" ->
         IF nm \in {N_caption, N_table, N_tbody, N_tfoot, N_thead, N_tr, N_td, N_th}
         THEN (IF NameInScope(ps, nm, "table") THEN Rep(NoRe(EndTag(ps, "inSelect", ImpliedEndTok(N_select)))) ELSE NoRe(ps))
@@ -706,7 +795,7 @@ AdoptionOuter(ps, tok, round) ==
                           p2 == [p1 EXCEPT !.nodes = Detach(@, last)]
                           p3 == IF p2.nodes[ca].n \in {N_table, N_tbody, N_tfoot, N_thead, N_tr}
                                 THEN LET fp == FosterPos(p2) IN [p2 EXCEPT !.nodes = InsertBefore(@, fp[1], last, fp[2])]
-                                ELSE [p2 EXCEPT !.nodes = AppendChild(@, ca, last)]
+                                ELSE [p2 EXCEPT !.nodes = AppendChild(@, Into(p2.nodes, ca), last)]
                           p4 == CloneNode(p3, fe)
                           cl == Len(p4.nodes)
                           p5 == [p4 EXCEPT !.nodes = AppendChild(ReparentKids(@, fb, cl), fb, cl)]
@@ -753,7 +842,8 @@ Chars(ps, mode, cls, data) ==
         IF cls = "ws" /\ ~Std("tc-cell-caption-ws-base") THEN NoRe(InsertTextCur(ps, data)) ELSE Chars(ps, "inBody", cls, data)
     [] mode = "inColumnGroup" ->
         IF cls = "ws" THEN NoRe(InsertTextCur(ps, data))
-        ELSE IF CurName(ps) = N_html THEN NoRe(ps) ELSE Rep([Pop(ps) EXCEPT !.mode = "inTable"])
+        ELSE IF ColgroupIgnore(ps) THEN NoRe(ps) ELSE Rep([Pop(ps) EXCEPT !.mode = "inTable"])
+    [] mode = "inTemplate" -> Chars(ps, "inBody", cls, data)
     [] mode \in {"inSelect", "inSelectInTable"} -> IF cls = "nul" THEN NoRe(ps) ELSE NoRe(InsertTextCur(ps, data))
     [] mode = "afterBody" ->
         IF cls = "ws" THEN (IF Std("tc-afterbody-space") THEN Chars(ps, "inBody", cls, data) ELSE NoRe(InsertTextCur(ps, data)))
@@ -779,6 +869,8 @@ EofIn(ps, mode) ==
       [] mode = "afterHead" -> Rep(AfterHeadAnythingElse(ps))
       [] mode = "text" -> Rep([Pop(ps) EXCEPT !.mode = ps.orig])
       [] mode = "inTableText" -> Rep(FlushTableText(ps))
+      [] TPL /\ ps.tmodes # <<>> /\ mode \in {"inBody", "inTable", "inCaption", "inColumnGroup", "inTableBody", "inRow", "inCell",
+                                             "inSelect", "inSelectInTable", "inTemplate"} -> TemplateEof(ps)
       [] mode = "inColumnGroup" -> IF CurName(ps) = N_html THEN NoRe(ps) ELSE Rep([Pop(ps) EXCEPT !.mode = "inTable"])
       [] OTHER -> NoRe(ps)
 
@@ -811,7 +903,10 @@ ForeignEnd(ps, tok) ==
                    ELSE IF i = 1 THEN NoRe(ps)                   \* cannot happen: the root is an HTML element
                    ELSE IF ps.nodes[ps.open[i - 1]].ns # "html" THEN Walk(i - 1)
                    ELSE EndTag(ps, ps.mode, tok)
-    IN Walk(Len(ps.open))
+    IN \* the standard lists the end tags </p> and </br> with the breakout start tags; html5lib has start tags only
+       IF Std("tc-foreign-endtag-p-br") /\ tok.n \in {N_p, N_br}
+       THEN LET p1 == BreakoutPop(ps) IN EndTag(p1, p1.mode, tok)
+       ELSE Walk(Len(ps.open))
 ForeignChars(ps, cls, data) ==
     IF cls = "nul" THEN NoRe(InsertTextCur(ps, [i \in 1..Len(data) |-> 65533]))
     ELSE IF cls = "ws" THEN NoRe(InsertTextCur(ps, data))
